@@ -141,10 +141,15 @@ class File:
     basename: Optional[str] = None  # file name without extension; default proto_name
     items: List[Any] = field(default_factory=list)  # Import | Option | Const | Alias | Enum | Message
     comment: Optional[str] = None
+    subdir: str = ""  # directory of the file below the schema root ("" | "lib" | "lib/inner"): import paths are relative to the importing file
 
     def __post_init__(self) -> None:
         if self.basename is None:
             self.basename = self.proto_name
+
+    @property
+    def relpath(self) -> str:
+        return f"{self.subdir}/{self.filename}" if self.subdir else self.filename
 
     @property
     def filename(self) -> str:
